@@ -720,8 +720,27 @@ func (st *Runtime) evalPrimaryExpressionGroup(node Expression) reflect.Value {
 			} else {
 				node.EndIndex.errorf("non numeric value in index expression kind %s", indexExpression.Kind().String())
 			}
-		} else {
+		}
+
+		var max int
+		switch baseExpression.Kind() {
+		case reflect.String:
+			max = baseExpression.Len()
+		case reflect.Slice:
+			max = baseExpression.Cap()
+		case reflect.Array:
+			if !baseExpression.CanAddr() {
+				node.Base.errorf("can't slice unaddressable array %s", node.Base)
+			}
+			max = baseExpression.Len()
+		default:
+			node.Base.errorf("can't slice %s (%s): not a string, slice or array", node.Base, getTypeString(baseExpression))
+		}
+		if node.EndIndex == nil {
 			length = baseExpression.Len()
+		}
+		if index < 0 || index > length || length > max {
+			node.errorf("slice bounds out of range [%d:%d] with capacity %d", index, length, max)
 		}
 
 		return baseExpression.Slice(index, length)
